@@ -10,6 +10,8 @@ A harness entry function
 ``TWIN`` turns the function into its reachability twin: ``ok()`` returns False and
 ``fail()`` returns True, so CrossHair must produce an input that reaches the end.
 """
+import os as _os
+_DEBUG = bool(_os.environ.get('VERIF_DEBUG_FAIL'))
 CFG = {}
 TWIN = False
 STATS = {'calls': 0, 'reached': 0, 'failed': 0, 'skipped': 0}
@@ -29,6 +31,9 @@ def ok():
 
 def fail(reason, **detail):
     STATS['failed'] += 1
+    if _DEBUG:
+        import sys
+        print('FAIL', reason, {k: str(v)[:300] for k, v in detail.items()}, file=sys.stderr)
     LAST['reason'] = reason
     LAST['detail'] = detail
     return bool(TWIN)
